@@ -271,8 +271,9 @@ Fixpoint py_type_uses (eager : bool) (t : tyx) : list use :=
 Definition py_factory_use (eager : bool) (r : ref) : use :=
   mkUse NsMod (rel_qual LPy r) (py_default_factory_name (ref_name LPy r)) eager.
 
-(* PyFormatter.format_default_value: None = the renderer raises (fields()[0] of an enum
-   without members) *)
+(* PyFormatter.format_default_value (None = the renderer raises: it never does since the
+   fix "python output for an enum without members": a memberless enum defaults to the literal 0,
+   which mentions no generated name; an enum with members to <Enum>.<first member>) *)
 Fixpoint py_defval (eager : bool) (t : tyx) : option (list use) :=
   match t with
   | TBase _ => Some []
@@ -281,7 +282,7 @@ Fixpoint py_defval (eager : bool) (t : tyx) : option (list use) :=
       match r_k r with
       | RkEnum => match enum_members r with
                   | Some (_ :: _) => Some [mkUse NsMod (ref_qual LPy r) (ref_name LPy r) eager]
-                  | _ => None
+                  | _ => Some []
                   end
       | RkMsg => Some [mkUse NsMod (ref_qual LPy r) (ref_name LPy r) eager]
       | RkAlias => Some [py_factory_use eager r]
